@@ -222,7 +222,7 @@ func (c *Ctx) ruleKeepAliveClassify(rr *RuleRep, ka *ssa.Function, ctx, ctxTo ss
 			if call, callee := c.asCall(ev); call != nil && callee != nil && callee.Pkg == c.Pkg && c.isWrapFn(callee) {
 				cause = call.Call.Args[0]
 			}
-			if pred(cause) {
+			if pred(cause) || pred(c.ResolveAt(cause, ret)) {
 				rr.OK("KeepAlive/"+name, ret.Pos(), "%s", want)
 			} else {
 				rr.Bad("KeepAlive/"+name, ret.Pos(), "the %s case does not return %s", name, want)
